@@ -23,6 +23,17 @@ CLAIMED = {
    note="Trusted: Coq kernel + vm_compute; hand-written heap model (checked by correspondence); sub-losses taken from the implementation's own "
         "sub-objective functions; float32 tolerance 2e-5 relative; sigmoid/recorrelation/FFT are library code (range checked on outputs only).",
    design="5 (C19)", technique="Coq proof over a heap/program semantics (invariant by induction over statements) + differential correspondence"),
+ "C02": dict(
+   text="Machine-checked proofs about executable models of (a) the operator / inference / gradient dispatch (finite decision table, every case), "
+        "(b) the prediction, segmentation and object-detection operators (documented scores, IoU bounds and symmetry, variants), and (c) the "
+        "white-box constructor with output_layer (the explainer differentiates the truncated model); tied to /repo by an exhaustive dispatch "
+        "enumeration over 6 model kinds x 21 operator specs, random operator inputs, operator-selection end to end (Occlusion, Saliency, "
+        "GradientInput) and output_layer runs on dense-relu nets against the Coq net model and against the truncated Keras model. The code as "
+        "found ignored output_layer (refuted in Coq, reproduced, fixed).",
+   note="Trusted: Coq kernel + vm_compute; hand-written models (checked by correspondence); TF autodiff; tf.norm as Euclidean norm (rational-norm class "
+        "vectors in generated cases); TfLite kind not exercised; metrics share get_inference_function with explainers (dispatch stream) but no metric "
+        "is run end to end with a custom operator here (C14/C15 do with the default one).",
+   design="5 (C02)", technique="Coq proofs (finite case analysis, order reasoning via lra/nra, list induction) + differential correspondence incl. exhaustive dispatch table"),
 }
 PENDING_REASON = "check not built yet in this session (work in progress; planned in DESIGN.md section 5)"
 
